@@ -9,6 +9,10 @@ import os
 import sys
 
 _LOG = os.environ.get("RPV_AUDIT_LOG")
+
+for _name in [n for n in os.environ.get("RPV_BLOCK_MODULES", "").split(",") if n]:
+    # an interpreter built without an optional C accelerator (e.g. _decimal when libmpdec is missing): importing it fails
+    sys.modules[_name] = None  # type: ignore[assignment]
 _REACH_LOG = os.environ.get("RPV_REACH_LOG")  # read once, here: a lookup inside the audit hook would be attributed to the package
 
 if _REACH_LOG and os.environ.get("RPV_PACKAGE_ROOT"):
